@@ -73,8 +73,13 @@ def corpus_for(prop: str) -> List[Tuple[str, str, str, Optional[str]]]:
                 out.append(("must-fire", f"prefix-{k['commit']}", p, k.get("rule")))
     for meta in sorted(glob.glob(os.path.join(VERIF, "seeded", "*", "meta.json"))):
         m = json.load(open(meta))
-        if prop in m.get("detected_by", []):
+        own = m.get("property") or str(m.get("id", ""))[:3]
+        if own == prop:
+            # a change aimed at this property: this check has to report it
             out.append(("must-fire", f"seeded-{m['id']}", os.path.join(os.path.dirname(meta), "patch.diff"), None))
+        elif prop in m.get("detected_by", []):
+            # aimed at another property, reported here as well when it was filed: informative, not an obligation
+            out.append(("may-fire", f"seeded-{m['id']}", os.path.join(os.path.dirname(meta), "patch.diff"), None))
     for p in sorted(glob.glob(os.path.join(HERE, "corpus", "benign", "*.diff"))):
         out.append(("must-stay-silent", "benign-" + os.path.basename(p)[:-5], p, None))
     try:
@@ -113,6 +118,9 @@ def run_for(prop: str, root: str) -> Dict[str, Any]:
                 details.append({"id": r["id"], "result": "fired", "rules": sorted(set(new.values()))[:4]})
             else:
                 failed.append({"id": r["id"], "why": f"must-fire variant is not reported (new refuted rules: {sorted(set(new.values()))}, expected {r['expect']})"})
+        elif r["kind"] == "may-fire":
+            details.append({"id": r["id"], "result": "fired (cross-property)" if new else "not reported by this property's rules (aimed at another property)",
+                            "rules": sorted(set(new.values()))[:4]})
         else:
             new_inc = [k for k in r["inconclusive"] if k not in base_inc]
             if new or new_inc:
